@@ -247,6 +247,7 @@ def parseCOp : List String → Option Custom.Op
   | ["creg", n] => (hexToString n).map .reg
   | ["copen", "mem"] => some (.openS .mem)
   | ["copen", "http"] => some (.openS .http)
+  | ["copen", "cli"] => some (.openS .cli)
   | ["chs", k] => k.toNat?.map .hs
   | ["ccall", k, n, id, shape] => do
     let k ← k.toNat?
